@@ -353,9 +353,8 @@ def r6(ctx):
     rep = arg(c, 2, "replace")
     nth = [k for k, v in env.items()]
     N = Norm(strict=False)
-    # n_thetas comes from predictions.shape[1]
-    tup = [n for n in walk_own(f.node) if isinstance(n, ast.Assign) and isinstance(n.targets[0], ast.Tuple) and U(n.value) == f"{f.params[0]}.shape"]
-    nt = U(tup[0].targets[0].elts[1]) if tup else "n_thetas"
+    # n_thetas is predictions.shape[1] (the tuple unpacking of .shape is read through)
+    nt = f"{f.params[0]}.shape[1]"
     ok_pop = U(pop).replace(" ", "") == f"comb({nt},3,exact=True)"
     ok_size = size is not None and N.key(size) in (N.key(parse_expr(f"min(comb({nt}, 3, exact=True), max_combos)")), N.key(parse_expr(f"min(max_combos, comb({nt}, 3, exact=True))")))
     ok_rep = rep is not None and U(rep) == "False"
@@ -366,7 +365,7 @@ def r6(ctx):
               f"triples are drawn with size `{U(size) if size is not None else None}`, replace={U(rep) if rep is not None else 'True (default)'}: "
               f"repeated triples bias the estimate / not all triples are used when the budget covers them")
     un = [x for x in calls(f.node) if U(x.func) in ("get_combination_at_sorted_index", "generate_combination_at_sorted_index")]
-    ok = len(un) == 1 and [U(a) for a in un[0].args[1:]] == [nt, "3"]
+    ok = len(un) == 1 and [U(inline(a, env)) for a in un[0].args[1:]] == [nt, "3"]
     lc = [n for n in walk_own(f.node) if isinstance(n, ast.ListComp) and un and un[0] in list(ast.walk(n))]
     ok = ok and len(lc) == 1 and U(lc[0].generators[0].iter) in [k for k, v in env.items() if v is c] and U(un[0].args[0]) == U(lc[0].generators[0].target)
     ctx.check("R6", f"{f.site()}::unranked-with-same-n", ok, f"each drawn index is unranked with (n={nt}, k=3)", "the drawn indices are not unranked one by one with the same n and k = 3")
